@@ -5,6 +5,7 @@
 #ifndef VERIF_GHOST_H
 #define VERIF_GHOST_H
 #include "grammar.h"
+#include "utf8_spec.h"
 extern long verif_gk;
 extern long verif_gk2;
 extern long verif_w;
